@@ -79,6 +79,7 @@ type SchedSpec struct {
 	Overlap     []int   `json:"overlap,omitempty"`   // decision indices at which k>=2 runs are released together
 	OverlapK    int     `json:"overlapk,omitempty"`
 	Race        bool    `json:"race,omitempty"`      // needs the -race worker
+	NoPoolYield bool    `json:"nopoolyield,omitempty"` // coarse granularity: runs do not park at pooled-file Gets (a caller may hold a lock there)
 }
 
 // Scenario is the unit of execution and the replay file.
